@@ -79,9 +79,26 @@ CLAIMED["C12"] = (
     "DESIGN.md section 5, C12",
 )
 
+CLAIMED["C04"] = (
+    "display",
+    "exploration",
+    "The real posix raw Screen draws seeded histories of canvases (generated attribute/charset/text runs incl. wide, combining, "
+    "DEC-special and control characters; palette names, aliases, undefined names, AttrSpec objects; 5 colour depths; 3 output "
+    "encodings; back_color_erase on/off) on a fake tty, interleaved with clear(), set_terminal_properties and SIGWINCH delivered at "
+    "scheduled points including inside the k-th write() of a frame. RefTerm, an independent VT100/xterm model, interprets every "
+    "byte; after every frame of the right size every cell (text, resolved attributes, charset), the cursor and the scroll counter "
+    "are compared, with attribute expectations computed independently from the palette through AttrSpec's public properties. The "
+    "HTML back-end is checked on the same canvases. Sampling, not proof.",
+    "Trusts RefTerm (hand-written from the DEC/xterm documents; no independent emulator is available offline) and its xterm-like "
+    "resize behaviour; blank cells compared by effective background and underline only; one known finding (C0 control characters "
+    "in UTF-8 text) masks frames that contain such characters.",
+    "deterministic simulation: seeded frame/resize schedules with SIGWINCH injected at write granularity, reference-terminal oracle",
+    "DESIGN.md section 5, C04",
+)
+
 PENDING = {
     p: "claimed in DESIGN.md; its simulation engine is not built yet in this tree, so no check is registered for it at this commit"
-    for p in ("C04", "C06", "C07", "C08", "C10", "C15", "C20")
+    for p in ("C06", "C07", "C08", "C10", "C15", "C20")
 }
 
 
